@@ -399,7 +399,11 @@ func (s *State) ReachIndex() map[string]bool {
 // isFallbackTag recognises the referrers fallback tag "<alg>-<hex>" (no suffix).
 func isFallbackTag(t string) bool {
 	i := strings.IndexByte(t, '-')
-	return i > 0 && wellFormedHex(t[:i], t[i+1:])
+	if i <= 0 {
+		return false
+	}
+	// the hex part is cut to 64 characters (sha512 subjects)
+	return wellFormedHex(t[:i], t[i+1:]) || (t[:i] == "sha512" && wellFormedHex("sha256", t[i+1:]))
 }
 
 // Referrers returns the sorted digests listed by a referrers fallback tag.
